@@ -182,54 +182,54 @@ theorem chainAccount_spec {accts : List Account} {a : Account} (h : chainAccount
   unfold chainAccount at h
   exact ⟨List.mem_of_find?_eq_some h, by simpa using List.find?_some h⟩
 
-theorem relayAux_skip {pend : Option Nat} {v : Nat} {lut : List Nat} {hd : Item} {tl : List Item}
-    (h : ¬ pass1 pend hd = true) : relayAux pend v lut (hd :: tl) = relayAux pend v lut tl := by
+theorem relayAux_skip {sm : Item → Bool} {pend : Option Nat} {v : Nat} {lut : List Nat} {hd : Item} {tl : List Item}
+    (h : ¬ pass1 pend hd = true) : relayAux sm pend v lut (hd :: tl) = relayAux sm pend v lut tl := by
   simp [relayAux, h]
 
-theorem relayAux_known {pend : Option Nat} {v : Nat} {lut : List Nat} {hd : Item} {tl : List Item}
-    (h1 : pass1 pend hd = true) (h2 : senderMsg hd = true) (h3 : hd.sender ∈ lut) :
-    relayAux pend v lut (hd :: tl) = relayAux pend v lut tl := by
+theorem relayAux_known {sm : Item → Bool} {pend : Option Nat} {v : Nat} {lut : List Nat} {hd : Item} {tl : List Item}
+    (h1 : pass1 pend hd = true) (h2 : sm hd = true) (h3 : hd.sender ∈ lut) :
+    relayAux sm pend v lut (hd :: tl) = relayAux sm pend v lut tl := by
   simp [relayAux, h1, h2, h3]
 
-theorem relayAux_new_pass {pend : Option Nat} {v : Nat} {lut : List Nat} {hd : Item} {tl : List Item}
-    (h1 : pass1 pend hd = true) (h2 : senderMsg hd = true) (h3 : hd.sender ∉ lut)
+theorem relayAux_new_pass {sm : Item → Bool} {pend : Option Nat} {v : Nat} {lut : List Nat} {hd : Item} {tl : List Item}
+    (h1 : pass1 pend hd = true) (h2 : sm hd = true) (h3 : hd.sender ∉ lut)
     (h4 : pass2 v hd = true) :
-    relayAux pend v lut (hd :: tl) = hd.id :: relayAux pend v (hd.sender :: lut) tl := by
+    relayAux sm pend v lut (hd :: tl) = hd.id :: relayAux sm pend v (hd.sender :: lut) tl := by
   simp [relayAux, h1, h2, h3, h4]
 
-theorem relayAux_new_fail {pend : Option Nat} {v : Nat} {lut : List Nat} {hd : Item} {tl : List Item}
-    (h1 : pass1 pend hd = true) (h2 : senderMsg hd = true) (h3 : hd.sender ∉ lut)
+theorem relayAux_new_fail {sm : Item → Bool} {pend : Option Nat} {v : Nat} {lut : List Nat} {hd : Item} {tl : List Item}
+    (h1 : pass1 pend hd = true) (h2 : sm hd = true) (h3 : hd.sender ∉ lut)
     (h4 : ¬ pass2 v hd = true) :
-    relayAux pend v lut (hd :: tl) = relayAux pend v (hd.sender :: lut) tl := by
+    relayAux sm pend v lut (hd :: tl) = relayAux sm pend v (hd.sender :: lut) tl := by
   simp [relayAux, h1, h2, h3, h4]
 
-theorem relayAux_plain_pass {pend : Option Nat} {v : Nat} {lut : List Nat} {hd : Item} {tl : List Item}
-    (h1 : pass1 pend hd = true) (h2 : ¬ senderMsg hd = true) (h4 : pass2 v hd = true) :
-    relayAux pend v lut (hd :: tl) = hd.id :: relayAux pend v lut tl := by
+theorem relayAux_plain_pass {sm : Item → Bool} {pend : Option Nat} {v : Nat} {lut : List Nat} {hd : Item} {tl : List Item}
+    (h1 : pass1 pend hd = true) (h2 : ¬ sm hd = true) (h4 : pass2 v hd = true) :
+    relayAux sm pend v lut (hd :: tl) = hd.id :: relayAux sm pend v lut tl := by
   simp [relayAux, h1, h2, h4]
 
-theorem relayAux_plain_fail {pend : Option Nat} {v : Nat} {lut : List Nat} {hd : Item} {tl : List Item}
-    (h1 : pass1 pend hd = true) (h2 : ¬ senderMsg hd = true) (h4 : ¬ pass2 v hd = true) :
-    relayAux pend v lut (hd :: tl) = relayAux pend v lut tl := by
+theorem relayAux_plain_fail {sm : Item → Bool} {pend : Option Nat} {v : Nat} {lut : List Nat} {hd : Item} {tl : List Item}
+    (h1 : pass1 pend hd = true) (h2 : ¬ sm hd = true) (h4 : ¬ pass2 v hd = true) :
+    relayAux sm pend v lut (hd :: tl) = relayAux sm pend v lut tl := by
   simp [relayAux, h1, h2, h4]
 
 /-- characterisation of the relay filter over a queue suffix with a look-up table -/
-theorem mem_relayAux (pend : Option Nat) (v x : Nat) (l : List Item) :
-    ∀ lut : List Nat, x ∈ relayAux pend v lut l ↔
+theorem mem_relayAux (sm : Item → Bool) (pend : Option Nat) (v x : Nat) (l : List Item) :
+    ∀ lut : List Nat, x ∈ relayAux sm pend v lut l ↔
       ∃ pre it post, l = pre ++ it :: post ∧ it.id = x ∧ pass1 pend it = true ∧ pass2 v it = true ∧
-        (senderMsg it = true → it.sender ∉ lut ∧
-          ∀ j ∈ pre, pass1 pend j = true → senderMsg j = true → j.sender ≠ it.sender) := by
+        (sm it = true → it.sender ∉ lut ∧
+          ∀ j ∈ pre, pass1 pend j = true → sm j = true → j.sender ≠ it.sender) := by
   induction l with
   | nil => intro lut; simp [relayAux]
   | cons hd tl ih =>
     intro lut
     -- membership in the tail, transported to the whole list
-    have lift : ∀ lut', (∀ it : Item, senderMsg it = true → (it.sender ∉ lut' ↔
-          it.sender ∉ lut ∧ (pass1 pend hd = true → senderMsg hd = true → hd.sender ≠ it.sender))) →
-        (x ∈ relayAux pend v lut' tl ↔
+    have lift : ∀ lut', (∀ it : Item, sm it = true → (it.sender ∉ lut' ↔
+          it.sender ∉ lut ∧ (pass1 pend hd = true → sm hd = true → hd.sender ≠ it.sender))) →
+        (x ∈ relayAux sm pend v lut' tl ↔
           ∃ pre it post, hd :: tl = (hd :: pre) ++ it :: post ∧ it.id = x ∧ pass1 pend it = true ∧ pass2 v it = true ∧
-            (senderMsg it = true → it.sender ∉ lut ∧
-              ∀ j ∈ hd :: pre, pass1 pend j = true → senderMsg j = true → j.sender ≠ it.sender)) := by
+            (sm it = true → it.sender ∉ lut ∧
+              ∀ j ∈ hd :: pre, pass1 pend j = true → sm j = true → j.sender ≠ it.sender)) := by
       intro lut' hl
       rw [ih lut']
       constructor
@@ -253,12 +253,12 @@ theorem mem_relayAux (pend : Option Nat) (v x : Nat) (l : List Item) :
         exact hp j (List.mem_cons_of_mem _ hj)
     -- the head itself
     have headCase : (∃ pre it post, hd :: tl = pre ++ it :: post ∧ it.id = x ∧ pass1 pend it = true ∧ pass2 v it = true ∧
-            (senderMsg it = true → it.sender ∉ lut ∧
-              ∀ j ∈ pre, pass1 pend j = true → senderMsg j = true → j.sender ≠ it.sender)) ↔
-        ((hd.id = x ∧ pass1 pend hd = true ∧ pass2 v hd = true ∧ (senderMsg hd = true → hd.sender ∉ lut)) ∨
+            (sm it = true → it.sender ∉ lut ∧
+              ∀ j ∈ pre, pass1 pend j = true → sm j = true → j.sender ≠ it.sender)) ↔
+        ((hd.id = x ∧ pass1 pend hd = true ∧ pass2 v hd = true ∧ (sm hd = true → hd.sender ∉ lut)) ∨
           ∃ pre it post, hd :: tl = (hd :: pre) ++ it :: post ∧ it.id = x ∧ pass1 pend it = true ∧ pass2 v it = true ∧
-            (senderMsg it = true → it.sender ∉ lut ∧
-              ∀ j ∈ hd :: pre, pass1 pend j = true → senderMsg j = true → j.sender ≠ it.sender)) := by
+            (sm it = true → it.sender ∉ lut ∧
+              ∀ j ∈ hd :: pre, pass1 pend j = true → sm j = true → j.sender ≠ it.sender)) := by
       constructor
       · rintro ⟨pre, it, post, heq, hid, h1, h2, hs⟩
         cases pre with
@@ -275,7 +275,7 @@ theorem mem_relayAux (pend : Option Nat) (v x : Nat) (l : List Item) :
         · exact ⟨hd :: pre, it, post, heq, hid, h1, h2, hs⟩
     rw [headCase]
     by_cases hp1 : pass1 pend hd = true
-    · by_cases hsm : senderMsg hd = true
+    · by_cases hsm : sm hd = true
       · by_cases hin : hd.sender ∈ lut
         · rw [relayAux_known hp1 hsm hin, lift lut]
           · constructor
@@ -292,8 +292,8 @@ theorem mem_relayAux (pend : Option Nat) (v x : Nat) (l : List Item) :
               rw [← heq]; exact hin
             · intro h; exact h.1
         · have hnin : hd.sender ∉ lut := hin
-          have hl : ∀ it : Item, senderMsg it = true → (it.sender ∉ hd.sender :: lut ↔
-              it.sender ∉ lut ∧ (pass1 pend hd = true → senderMsg hd = true → hd.sender ≠ it.sender)) := by
+          have hl : ∀ it : Item, sm it = true → (it.sender ∉ hd.sender :: lut ↔
+              it.sender ∉ lut ∧ (pass1 pend hd = true → sm hd = true → hd.sender ≠ it.sender)) := by
             intro it _
             simp only [List.mem_cons, not_or]
             constructor
@@ -316,8 +316,8 @@ theorem mem_relayAux (pend : Option Nat) (v x : Nat) (l : List Item) :
             · rintro (⟨_, _, h2, _⟩ | h)
               · exact absurd h2 hp2
               · exact h
-      · have hl : ∀ it : Item, senderMsg it = true → (it.sender ∉ lut ↔
-            it.sender ∉ lut ∧ (pass1 pend hd = true → senderMsg hd = true → hd.sender ≠ it.sender)) := by
+      · have hl : ∀ it : Item, sm it = true → (it.sender ∉ lut ↔
+            it.sender ∉ lut ∧ (pass1 pend hd = true → sm hd = true → hd.sender ≠ it.sender)) := by
           intro it _
           constructor
           · intro h; exact ⟨h, fun _ h2 => absurd h2 hsm⟩
@@ -337,8 +337,8 @@ theorem mem_relayAux (pend : Option Nat) (v x : Nat) (l : List Item) :
           · rintro (⟨_, _, h2, _⟩ | h)
             · exact absurd h2 hp2
             · exact h
-    · have hl : ∀ it : Item, senderMsg it = true → (it.sender ∉ lut ↔
-          it.sender ∉ lut ∧ (pass1 pend hd = true → senderMsg hd = true → hd.sender ≠ it.sender)) := by
+    · have hl : ∀ it : Item, sm it = true → (it.sender ∉ lut ↔
+          it.sender ∉ lut ∧ (pass1 pend hd = true → sm hd = true → hd.sender ≠ it.sender)) := by
         intro it _
         constructor
         · intro h; exact ⟨h, fun h1 => absurd h1 hp1⟩
@@ -569,19 +569,19 @@ theorem enqueue_assigns_pick (s : State) (kind : Kind) (content sender : Nat) (m
 /-- **offered_iff** (clause 2).  Message `x` is offered to validator `v` iff the queue contains an
 item with that id which, with `pend` the id of the oldest validator-set update in the queue,
 (1) is not younger than `pend`, (2) has neither delivery nor error report, (3) has its gas estimate
-elected if one is required, (4) is assigned to `v`, and (5) if it is a SubmitLogicCall with a
-non-empty sender, no *earlier* queue item passing (1) and (2) is a SubmitLogicCall of the same
-sender.  Note (5) does not ask the earlier item to pass (3) or (4): the per-sender filter registers
-the sender before those tests run. -/
+elected if one is required, (4) is assigned to `v`, and (5) if it is a fee-paying message
+(SubmitLogicCall, UploadUserSmartContract) with a non-empty sender, no *earlier* queue item passing
+(1) and (2) is a fee-paying message of the same sender.  Note (5) does not ask the earlier item to
+pass (3) or (4): the per-sender filter registers the sender before those tests run. -/
 theorem offered_iff (q : List Item) (v x : Nat) :
     x ∈ offered q v ↔
       ∃ pre it post, q = pre ++ it :: post ∧ it.id = x ∧
         (match pendingValset q with | none => True | some p => it.id ≤ p) ∧
         it.pub = false ∧ it.err = false ∧
         (it.reqEst = true → it.elected > 0) ∧ it.assignee = v ∧
-        (it.kind = .slc → it.sender ≠ 0 →
-          ∀ j ∈ pre, pass1 (pendingValset q) j = true → j.kind = .slc → j.sender ≠ it.sender) := by
-  unfold offered
+        (it.kind.feePayer = true → it.sender ≠ 0 →
+          ∀ j ∈ pre, pass1 (pendingValset q) j = true → j.kind.feePayer = true → j.sender ≠ it.sender) := by
+  unfold offered offeredWith
   rw [mem_relayAux]
   constructor
   · rintro ⟨pre, it, post, hq, hid, h1, h2, hs⟩
@@ -623,15 +623,15 @@ theorem offered_iff (q : List Item) (v x : Nat) :
       refine ⟨by simp, ?_⟩
       intro j hj hj1 hjs
       unfold senderMsg at hsm hjs
-      simp only [Bool.and_eq_true, beq_iff_eq, bne_iff_ne, ne_eq] at hsm hjs
+      simp only [Bool.and_eq_true, bne_iff_ne, ne_eq] at hsm hjs
       exact hs hsm.1 hsm.2 j hj hj1 hjs.1
 
-/-- **sender_registered_before_assignee_test.** An older pending SubmitLogicCall of the same sender
-blocks a message for *every* validator — even when that older message is assigned to somebody else
-or still waits for its gas estimate. -/
+/-- **sender_registered_before_assignee_test.** An older pending fee-paying message (SubmitLogicCall or
+UploadUserSmartContract) of the same sender blocks a message for *every* validator — even when that
+older message is assigned to somebody else or still waits for its gas estimate. -/
 theorem sender_registered_before_assignee_test (pre post : List Item) (j it : Item) (mid : List Item) (v : Nat)
     (hj : pass1 (pendingValset (pre ++ j :: mid ++ it :: post)) j = true)
-    (hjk : j.kind = .slc) (hik : it.kind = .slc) (hs : it.sender ≠ 0) (heq : j.sender = it.sender)
+    (hjk : j.kind.feePayer = true) (hik : it.kind.feePayer = true) (hs : it.sender ≠ 0) (heq : j.sender = it.sender)
     (hids : (pre ++ j :: mid ++ it :: post).Pairwise (fun a b => a.id ≠ b.id)) :
     it.id ∉ offered (pre ++ j :: mid ++ it :: post) v := by
   intro h
@@ -761,5 +761,19 @@ def demoQ : List Item :=
 -- message 1 (no estimate yet, other assignee) still blocks message 2 of the same sender; 4 is behind the valset update
 example : offered demoQ 2 = [3] ∧ offered demoQ 1 = [] := by decide
 example : offered (demoQ.drop 1) 2 = [2, 3] := by decide
+
+/-- two uploads and a logic call of one sender, all assigned to validator 2 and ready -/
+def demoUU : List Item :=
+  [ { id := 1, kind := .uusc, content := 1, sender := 7, assignee := 2, remote := 8, reqEst := false },
+    { id := 2, kind := .uusc, content := 2, sender := 7, assignee := 2, remote := 8, reqEst := false },
+    { id := 3, kind := .slc, content := 3, sender := 7, assignee := 2, remote := 8, reqEst := false },
+    { id := 4, kind := .uusc, content := 4, sender := 0, assignee := 2, remote := 8, reqEst := false } ]
+
+-- one message per sender (the empty sender is not a sender) …
+example : offered demoUU 2 = [1, 4] := by decide
+/-- **pre-fix witness (be3dcb4f).** With the filter that only looked at SubmitLogicCall all three messages
+of sender 7 were offered at once: the clause "never while an older message from the same sender is
+still pending" failed for uploads. -/
+example : offeredWith senderMsgPreFix demoUU 2 = [1, 2, 3, 4] := by decide
 
 end Paloma.Queue
